@@ -24,7 +24,11 @@ import (
 
 func init() {
 	progOps["dot"] = func(w *world, f []string) string {
-		r, err := tensor.Dot(w.ts[atoi(f[1])], w.ts[atoi(f[2])])
+		var o []tensor.FuncOpt
+		if len(f) > 3 {
+			o = w.opts(f[3], false)
+		}
+		r, err := tensor.Dot(w.ts[atoi(f[1])], w.ts[atoi(f[2])], o...)
 		return w.ret(r, err)
 	}
 	progOps["fmt"] = func(w *world, f []string) string {
